@@ -134,6 +134,134 @@ def triggers_of(src):
             for a in n.args:
                 if isinstance(a, ast.Name) and a.id in multi:
                     t.add("bare_variable_argument")
+    # void function whose last statement is a call to a function that returns a value
+    fdefs = {n.name: n for n in ast.walk(tree) if isinstance(n, ast.FunctionDef)}
+    returns_value = {k: any(isinstance(m, ast.Return) and m.value is not None for m in ast.walk(v)) for k, v in fdefs.items()}
+    for k, v in fdefs.items():
+        if v.body and not returns_value[k]:
+            last = v.body[-1]
+            if isinstance(last, ast.Expr) and isinstance(last.value, ast.Call) and isinstance(last.value.func, ast.Name) and returns_value.get(last.value.func.id):
+                t.add("void_function_ends_with_call_to_value_function")
+    # a value function with exactly one call site, and that call site is inside another function: it is inlined
+    # there and its result register gets a lifetime from source lines (definition .. call site)
+    sites = {}
+    for k, v in fdefs.items():
+        for m in ast.walk(v):
+            if isinstance(m, ast.Call) and isinstance(m.func, ast.Name) and m.func.id in fdefs:
+                sites.setdefault(m.func.id, []).append(k)
+    for s_ in tree.body:
+        if not isinstance(s_, ast.FunctionDef):
+            for m in ast.walk(s_):
+                if isinstance(m, ast.Call) and isinstance(m.func, ast.Name) and m.func.id in fdefs:
+                    sites.setdefault(m.func.id, []).append("")
+    for k, where in sites.items():
+        if len(where) == 1 and where[0] != "" and returns_value.get(k):
+            t.add("value_function_with_single_call_site_inside_function")
+    # tail-call candidates (last statement is a bare call of a user function) with another call / early return
+    for k, v in fdefs.items():
+        if not v.body:
+            continue
+        last = v.body[-1]
+        if isinstance(last, ast.Expr) and isinstance(last.value, ast.Call) and isinstance(last.value.func, (ast.Name, ast.Attribute)):
+            fn = last.value.func
+            is_user = (isinstance(fn, ast.Name) and fn.id in fdefs) or isinstance(fn, ast.Attribute)
+            if not is_user:
+                continue
+            for m in ast.walk(v):
+                if m is last.value:
+                    continue
+                if isinstance(m, ast.Call) and ((isinstance(m.func, ast.Name) and m.func.id in fdefs) or isinstance(m.func, ast.Attribute)):
+                    t.add("tail_call_candidate_with_other_call")
+                if isinstance(m, ast.For) and _is_for_list(m):
+                    t.add("tail_call_candidate_with_other_call")
+                if isinstance(m, ast.Return):
+                    t.add("tail_call_candidate_with_early_return")
+    # g + f() where f (transitively) writes the global g
+    gw = {}
+    for k, v in fdefs.items():
+        gl = set()
+        for m in ast.walk(v):
+            if isinstance(m, ast.Global):
+                gl.update(m.names)
+        gw[k] = gl
+    for _ in range(4):
+        for k, v in fdefs.items():
+            for m in ast.walk(v):
+                if isinstance(m, ast.Call) and isinstance(m.func, ast.Name) and m.func.id in gw:
+                    gw[k] = gw[k] | gw[m.func.id]
+    for n in ast.walk(tree):
+        if isinstance(n, (ast.Assign, ast.AugAssign, ast.Expr, ast.Return, ast.If, ast.While)):
+            root = n.value if isinstance(n, (ast.Assign, ast.AugAssign, ast.Expr, ast.Return)) else n.test
+            if root is None:
+                continue
+            calls = [m for m in ast.walk(root) if isinstance(m, ast.Call) and isinstance(m.func, ast.Name) and gw.get(m.func.id)]
+            if calls:
+                written = set().union(*[gw[c.func.id] for c in calls])
+                in_args = set()
+                for c in calls:
+                    for a in c.args:
+                        in_args.update(id(x) for x in ast.walk(a))
+                reads = {m.id for m in ast.walk(root) if isinstance(m, ast.Name) and id(m) not in in_args}
+                if isinstance(n, ast.AugAssign) and isinstance(n.target, ast.Name):
+                    reads.add(n.target.id)
+                if reads & written:
+                    t.add("global_read_in_expression_with_call_that_writes_it")
+    # user data in the part of the chip's own stack that the call conventions use (push ra from cell 0 upwards,
+    # arguments / results in the top cells)
+    for n in ast.walk(tree):
+        if isinstance(n, ast.Subscript) and isinstance(n.value, ast.Name) and n.value.id == "stack":
+            sl = n.slice
+            if isinstance(sl, ast.Constant) and isinstance(sl.value, (int, float)):
+                if not 64 <= sl.value <= 447:
+                    t.add("user_stack_address_outside_64_447")
+            else:
+                t.add("user_stack_address_outside_64_447")
+        if isinstance(n, ast.Call) and isinstance(n.func, ast.Name) and n.func.id in ("push", "pop", "peek", "poke", "get", "put") and n.func.id not in fdefs:
+            t.add("user_stack_address_outside_64_447")
+    # names read but never bound anywhere (and not provided by the dialect)
+    bound = set(assigned) | set(fdefs)
+    for n in ast.walk(tree):
+        if isinstance(n, ast.arg):
+            bound.add(n.arg)
+        elif isinstance(n, (ast.Import, ast.ImportFrom)):
+            for a in n.names:
+                bound.add(a.asname or a.name)
+        elif isinstance(n, ast.Global):
+            bound.update(n.names)
+    dialect = _dialect_names()
+    if dialect:
+        for n in ast.walk(tree):
+            if isinstance(n, ast.Name) and isinstance(n.ctx, ast.Load) and n.id not in bound and n.id not in dialect and n.id != "__name__":
+                t.add("undefined_name_read")
+                break
+    # string literal passed to an intrinsic (an instruction wrapper)
+    from .ic10_isa import ISA
+
+    for n in ast.walk(tree):
+        if isinstance(n, ast.Call) and isinstance(n.func, ast.Name) and n.func.id.rstrip("_") in ISA and n.func.id not in fdefs:
+            if any(isinstance(a, ast.Constant) and isinstance(a.value, str) for a in n.args):
+                t.add("string_literal_intrinsic_argument")
+    # a name bound to an enum member / structure / stack object in one place and bound again elsewhere
+    sdata = _struct_names()
+    enum_classes = set(E.merged())
+    special = {}
+    for n in ast.walk(tree):
+        if isinstance(n, ast.Assign) and len(n.targets) == 1 and isinstance(n.targets[0], ast.Name):
+            v = n.value
+            sp = False
+            if isinstance(v, ast.Attribute) and isinstance(v.value, ast.Name) and v.value.id in enum_classes:
+                sp = True
+            elif isinstance(v, ast.Call) and isinstance(v.func, ast.Name) and (v.func.id in sdata[0] or v.func.id in ("Stack", "Device")):
+                sp = True
+            elif isinstance(v, ast.Name) and v.id in sdata[1]:
+                sp = True
+            elif isinstance(v, ast.Subscript) and isinstance(v.value, ast.Name) and v.value.id in sdata[1]:
+                sp = True
+            if sp:
+                special[n.targets[0].id] = True
+    for k in special:
+        if len(assigned.get(k, [])) > 1:
+            t.add("name_bound_to_enum_or_structure_and_rebound")
     # terminating main with a called function
     body = [s for s in tree.body if not isinstance(s, (ast.Import, ast.ImportFrom, ast.FunctionDef))]
     endless = False
@@ -146,6 +274,39 @@ def triggers_of(src):
     if not endless:
         t.add("main_terminates")
     return sorted(t)
+
+
+_DN = None
+
+
+def _dialect_names():
+    global _DN
+    if _DN is None:
+        try:
+            from .common import ensure_repo_on_path
+
+            ensure_repo_on_path()
+            from stationeers_pytrapic import symbols
+
+            _DN = set(vars(symbols)) | {"range", "True", "False", "None", "library"}
+        except Exception:
+            _DN = set()
+    return _DN
+
+
+_SN = None
+
+
+def _struct_names():
+    global _SN
+    if _SN is None:
+        import json
+
+        from .common import VERIF
+
+        d = json.loads((VERIF / "vf" / "refdata" / "structures_pinned.json").read_text())
+        _SN = (set(d), {v["plural"] for v in d.values() if v.get("plural")})
+    return _SN
 
 
 def _assigned_const_once(tree, name):
